@@ -93,10 +93,12 @@ func checkC15(p *load.Program, r *kit.Report) {
 	r.Rule("GO-RECOVER", "every goroutine started in the two packages whose body runs a message handler or decodes peer bytes defers a function that calls recover(); the thread objects of tokenized/threads recover in their own goroutines (re-derived from the dependency source)", 4)
 	r.Rule("ALLOC-BOUND", "an integer decoded from the connection (header.Length, ReadVarInt results, binary.Read targets, and what is computed from them, followed into callees) never sizes make/Grow unless a dominating test bounds it by a constant ≤ 2³¹ or by the length of data already received", 1)
 	r.Rule("LOCK-BALANCE", "every explicit Unlock/RUnlock in the two packages is executed with that lock held on every path reaching it (unlock of an unlocked mutex is a fatal error no recover can contain)", 60)
+	r.Rule("NO-REACQUIRE", "no function of the two packages calls, while it holds a sync.Mutex/RWMutex on every path, a callee that takes the same lock of the same object (the handler would block for ever with the lock held: Run never returns and every other user of the object hangs)", 40)
+	checkNoReacquire(p, r, "NO-REACQUIRE", nil)
 	r.Rule("CLOSE-BEFORE-WAIT", "the waiting buffer that feeds the alternate header handler is closed before that handler's thread is waited for (otherwise a connection that ends inside a headers message leaves the handler, and with it Run, blocked for ever)", 2)
 	r.Rule("DEP-INDEX", "header.Bits is size-checked before it can reach bitcoin.ConvertToDifficulty's unguarded index (shared with C02)", 3)
 	r.Rule("CONSUME", "pre-handshake and verification-stage handlers consume what they skip (shared with C14), so garbage is rejected by the next header's magic test instead of desynchronising", 6)
-	r.Rule("FRAME-HELPERS", "foreign magic is rejected before anything else is read; every handler error ends the read loop (connection closed, Run returns)", 3)
+	r.Rule("FRAME-HELPERS", "foreign magic is rejected before anything else is read; every handler error ends the read loop (connection closed, Run returns); the extended length is installed in header.Length, which the deferred discard uses", 4)
 
 	// GO-RECOVER
 	k := newKeyer()
@@ -267,7 +269,7 @@ func checkC15(p *load.Program, r *kit.Report) {
 	checkFrameHelpers(p, sub, "FRAME-HELPERS")
 	for _, o := range sub.Obls {
 		switch o.Construct {
-		case "readHeader/magic", "readIncoming/stop-on-error", "readMessage/exact", "handleMessage/no-handler-discard":
+		case "readHeader/magic", "readIncoming/stop-on-error", "readMessage/exact", "handleMessage/no-handler-discard", "handleExtended/length-rewrite":
 			r.Obls = append(r.Obls, o)
 		}
 	}
